@@ -7,7 +7,9 @@ computed by the reference semantics; the Go harness replays every case against a
 build of /repo's current working tree.  Properties with their own flow (C01, C02,
 C15, C20 ...) plug in through props.py.
 """
+import hashlib
 import json
+import re
 import os
 import subprocess
 import sys
@@ -25,6 +27,38 @@ def confirm_alone(harness, scratch, case_line, limit="50s", cmd="replay"):
         f.write(case_line if case_line.endswith("\n") else case_line + "\n")
     r = V.replay(harness, p, scratch.path("confirm.res"), nworkers=1, limit=limit, cmd=cmd)
     return r[0] if r else None
+
+
+def check_pool_trace(scratch, pool_path, stage, selftest):
+    """Validates the recorded pool traffic with Trace_Pool.tla.  Returns (info, rejected events: dicts with line, event,
+    why, case digest)."""
+    with open(pool_path) as f:
+        lines = f.readlines()
+    if not lines:
+        raise V.Broken("no pool events were recorded in stage %s (hooks missing?)" % stage)
+    consumed, rejected, tres = V.validate_trace(scratch, "Trace_Pool", "Trace_Pool.cfg", pool_path, sub="pool-" + stage, timeout=1200)
+    if consumed != len(lines):
+        raise V.Broken("Trace_Pool consumed %d of %d events" % (consumed, len(lines)))
+    reasons = dict((int(a), b) for a, b in re.findall(r'<<(\d+),\s*"([^"]*)">>', tres["out"]))
+    bad = []
+    for ln in rejected[:50]:
+        digest = ""
+        for k in range(ln - 1, -1, -1):
+            e = json.loads(lines[k])
+            if e.get("ev") == "case":
+                digest = e.get("pool")
+                break
+        bad.append(dict(line=ln, event=json.loads(lines[ln - 1]), why=reasons.get(ln, "?"), case=digest))
+    if selftest:
+        # binding self-test: an object given back twice must be rejected
+        mut = scratch.path("pool-mut.ndjson")
+        k = next(i for i, l in enumerate(lines) if '"ev":"put"' in l)
+        with open(mut, "w") as f:
+            f.writelines(lines[:k + 1] + [lines[k]] + lines[k + 1:2000])
+        _, r2, _ = V.validate_trace(scratch, "Trace_Pool", "Trace_Pool.cfg", mut, sub="pool-self")
+        if (k + 2) not in r2:
+            raise V.Broken("binding self-test: a repeated put was accepted by Trace_Pool")
+    return dict(events=len(lines), rejected=len(rejected), states=tres["states"]), bad
 
 
 def confirm_in_context(harness, scratch, key, ctx, limit="50s", cmd="replay", extra_args=()):
@@ -125,6 +159,8 @@ def run_s2c(prop, tier, seed, opts):
         stage_info = []
         all_failing = []
         trace_rejects = []
+        pool_rejects = []
+        case_lines_by_digest = {}
         for st in spec["stages"]:
             if st.get("c2s"):
                 # code -> spec: a random Go driver runs the real engine far beyond TLC's exhaustive bounds;
@@ -210,9 +246,16 @@ def run_s2c(prop, tier, seed, opts):
             total_states += res["states"]
             total_distinct += res["distinct"]
             obs_path = scratch.path("obs-%s.ndjson" % st["name"]) if st.get("trace") else None
+            pool_path = scratch.path("pool-%s.ndjson" % st["name"]) if st.get("pooltrace", spec.get("pooltrace")) else None
             results = V.replay(harness, res["cases"], scratch.path("res-%s.ndjson" % st["name"]),
                                limit=st.get("limit", "5s"), obs_path=obs_path, cmd=st.get("cmd", "replay"),
-                               extra_args=st.get("args", spec.get("args", ())))
+                               extra_args=st.get("args", spec.get("args", ())), pool_path=pool_path)
+            pool_info = None
+            if pool_path:
+                pool_info, pool_bad = check_pool_trace(scratch, pool_path, st["name"], opts.get("selftest") or tier == "thorough")
+                total_states += pool_info["states"]
+                total_distinct += pool_info["states"]
+                pool_rejects.extend((st, b) for b in pool_bad)
             for r in results:
                 if not r["pass"]:
                     r["_context"] = V.context_of(r.get("key"))      # what its process had run before (see confirm_in_context)
@@ -263,6 +306,8 @@ def run_s2c(prop, tier, seed, opts):
                 for l in f:
                     c = json.loads(l)
                     case_lines[c.get("key")] = l
+                    if pool_path:
+                        case_lines_by_digest[hashlib.sha1((c.get("key") or "").encode()).hexdigest()[:16]] = l
             n_cases += len(results)
             n_runs += sum(r.get("runs", 1) for r in results)
             nt = spec.get("nontrivial", lambda r: True)
@@ -277,6 +322,8 @@ def run_s2c(prop, tier, seed, opts):
                                    tlc_wall_s=round(res["wall"], 1)))
             if trace_info:
                 stage_info[-1]["trace"] = trace_info
+            if pool_info:
+                stage_info[-1]["pool_trace"] = pool_info
             for r in failing:
                 all_failing.append((r, case_lines.get(r.get("key")), st.get("cmd", "replay")))
             # binding self-test on a sample of this stage
@@ -331,9 +378,20 @@ def run_s2c(prop, tier, seed, opts):
             f0 = r2["fails"][0]
             violations.append("VIOLATION property=%s replay=%s" % (prop, path))
             V.log("  violating case: %s | %s | %s got=%r want=%r" % (f0.get("run"), f0.get("src"), f0.get("why"), f0.get("got"), f0.get("want")))
+        # events of the render-context pools that break PoolDiscipline: the case they belong to (and the cases its
+        # process ran before it) is the replayable witness
+        for (st, b) in pool_rejects[:10]:
+            line = case_lines_by_digest.get(b["case"])
+            ctx = V.context_of(json.loads(line).get("key")) if line else None
+            os.makedirs(V.REPLAYS, exist_ok=True)
+            path = os.path.join(V.REPLAYS, "%s-pool-%s.json" % (prop, hashlib.sha1(json.dumps(b, sort_keys=True).encode()).hexdigest()[:12]))
+            with open(path, "w") as f:
+                json.dump({"property": prop, "pool_event": b, "trace_spec": "Trace_Pool", "case": json.loads(line) if line else None,
+                           "context": [json.loads(x) for x in (ctx or [])]}, f)
+            violations.append("VIOLATION property=%s replay=%s" % (prop, path))
+            V.log("  pool discipline broken: %s (event %s of case %s)" % (b["why"], json.dumps(b["event"]), (json.loads(line).get("key") if line else "?")[:200]))
         for (st, o) in trace_rejects[:10]:
             os.makedirs(V.REPLAYS, exist_ok=True)
-            import hashlib
             path = os.path.join(V.REPLAYS, "%s-trace-%s.json" % (prop, hashlib.sha1(json.dumps(o, sort_keys=True).encode()).hexdigest()[:12]))
             with open(path, "w") as f:
                 json.dump({"property": prop, "rejected_observation": o, "trace_spec": st["trace"]["module"]}, f)
